@@ -579,7 +579,7 @@ pub trait Chooser {
     /// exploring this execution (it is then drained with the first enabled).
     fn choose(&mut self, step: usize, enabled: &[Enabled]) -> Option<usize>;
     /// fault variants to offer for a pending fs call (besides Fault::None)
-    fn fault_variants(&self, _kind: ThreadKind, _call: &FsCall) -> Vec<Fault> {
+    fn fault_variants(&self, _kind: ThreadKind, _inst: usize, _call: &FsCall) -> Vec<Fault> {
         vec![]
     }
 }
@@ -601,6 +601,20 @@ pub struct ExecResult {
 pub type ThreadBody = Box<dyn FnOnce() + Send + 'static>;
 
 const PARK_TIMEOUT: Duration = Duration::from_secs(60);
+static PARK_TIMEOUT_MS: std::sync::atomic::AtomicU64 = std::sync::atomic::AtomicU64::new(0);
+
+/// Overrides the no-progress timeout (0 = default); used by explorations in
+/// which a hang is a possible verdict rather than a machinery failure.
+pub fn set_park_timeout(d: Option<Duration>) {
+    PARK_TIMEOUT_MS.store(d.map(|d| d.as_millis() as u64).unwrap_or(0), Ordering::Release);
+}
+
+fn park_timeout() -> Duration {
+    match PARK_TIMEOUT_MS.load(Ordering::Acquire) {
+        0 => PARK_TIMEOUT,
+        ms => Duration::from_millis(ms),
+    }
+}
 const BLOCKED_AFTER: Duration = Duration::from_secs(3);
 
 fn enabled_now(i: &Inner, ch: &dyn Chooser) -> Vec<Enabled> {
@@ -659,7 +673,7 @@ fn enabled_now(i: &Inner, ch: &dyn Chooser) -> Vec<Enabled> {
         };
         v.push(base.clone());
         if let Some(c) = &p.call {
-            for f in ch.fault_variants(s.kind, c) {
+            for f in ch.fault_variants(s.kind, s.inst, c) {
                 let mut e = base.clone();
                 e.fault = f;
                 e.label = format!("{}!{:?}", e.label, f);
@@ -778,10 +792,10 @@ pub fn run_execution(bodies: Vec<(ThreadKind, ThreadBody)>, chooser: &mut dyn Ch
             inner.supervisor_deciding = false;
             continue;
         }
-        if last_progress.elapsed() > PARK_TIMEOUT {
+        if last_progress.elapsed() > park_timeout() {
             hung = Some(format!(
                 "no progress for {:?}; thread states {:?}",
-                PARK_TIMEOUT,
+                park_timeout(),
                 inner.slots.iter().map(|s| (s.kind, s.state, s.pending.as_ref().map(|p| p.label()))).collect::<Vec<_>>()
             ));
             break;
@@ -854,6 +868,8 @@ pub struct Dfs {
     /// replay mode: follow this schedule (then the first enabled transition),
     /// explore nothing else
     pub forced: Option<Vec<(usize, String)>>,
+    /// inject faults only into threads of this store instance
+    pub fault_inst: Option<usize>,
 }
 
 #[derive(Clone, Copy, Debug, PartialEq, Eq)]
@@ -865,6 +881,8 @@ pub enum FaultPolicy {
     WorkerAll,
     /// EIO on worker fdatasync only
     WorkerSyncEio,
+    /// EIO on worker write/fdatasync/unlink
+    WorkerEioUnlink,
 }
 
 impl Dfs {
@@ -882,6 +900,7 @@ impl Dfs {
             last_tid: None,
             preemptions: 0,
             forced: None,
+            fault_inst: None,
         }
     }
 
@@ -951,13 +970,17 @@ fn is_fault_label(l: &str) -> bool {
 }
 
 impl Chooser for Dfs {
-    fn fault_variants(&self, kind: ThreadKind, call: &FsCall) -> Vec<Fault> {
+    fn fault_variants(&self, kind: ThreadKind, inst: usize, call: &FsCall) -> Vec<Fault> {
         if self.faults_used >= self.max_faults || kind != ThreadKind::Worker {
+            return vec![];
+        }
+        if self.fault_inst.map(|i| i != inst).unwrap_or(false) {
             return vec![];
         }
         match (self.fault_policy, &call.kind) {
             (FaultPolicy::None, _) => vec![],
             (FaultPolicy::WorkerEio, FsKind::Write | FsKind::Fdatasync) => vec![Fault::Eio],
+            (FaultPolicy::WorkerEioUnlink, FsKind::Write | FsKind::Fdatasync | FsKind::Unlink) => vec![Fault::Eio],
             (FaultPolicy::WorkerSyncEio, FsKind::Fdatasync) => vec![Fault::Eio],
             (FaultPolicy::WorkerAll, FsKind::Write) => {
                 let mut v = vec![Fault::Eio, Fault::Eintr];
@@ -1079,9 +1102,9 @@ pub struct Replay {
 }
 
 impl Chooser for Replay {
-    fn fault_variants(&self, kind: ThreadKind, call: &FsCall) -> Vec<Fault> {
+    fn fault_variants(&self, kind: ThreadKind, inst: usize, call: &FsCall) -> Vec<Fault> {
         let d = Dfs::new(self.max_faults, self.fault_policy);
-        d.fault_variants(kind, call)
+        d.fault_variants(kind, inst, call)
     }
     fn choose(&mut self, step: usize, enabled: &[Enabled]) -> Option<usize> {
         if let Some((t, l)) = self.schedule.get(step) {
